@@ -375,6 +375,9 @@ pub fn toi_len(bits: u8) -> TOIMaxLength {
 
 /// Seekable in-memory stream with a scripted short-read schedule. Records the
 /// seeks it receives.
+/// schedule entry of a ChunkedReader: this call returns ErrorKind::Interrupted instead of bytes
+pub const CHUNK_EINTR: usize = usize::MAX;
+
 #[derive(Debug)]
 pub struct ChunkedReader {
     data: Arc<Vec<u8>>,
@@ -407,6 +410,10 @@ impl Read for ChunkedReader {
         if !self.chunks.is_empty() && n > 0 {
             let c = self.chunks[self.next % self.chunks.len()].max(1);
             self.next += 1;
+            if c == CHUNK_EINTR {
+                // a signal arrived before any byte was transferred: the Read contract says 'retry'
+                return Err(std::io::Error::new(std::io::ErrorKind::Interrupted, "interrupted (EINTR)"));
+            }
             n = n.min(c);
         }
         buf[..n].copy_from_slice(&self.data[self.pos..self.pos + n]);
